@@ -605,7 +605,7 @@ var Engine = &core.Engine{
 		"Model(slice): an element without key (all key parts zero) addresses no row, the other elements still restrict the update; at least one element has a key; a slice whose LAST element has no key is reported under its own signature model-slice-last-element-without-key/<class>",
 		"embedded structs: keys stay at the top level; Go field names are unique over the whole model except for the duplicate pairs, so the field-name spelling of Select/Omit/map keys is unambiguous; embedded pointers are non-nil whenever a field below them is set",
 		"duplicate columns: exactly two fields share a column, they have the same Go name and sit on paths of DIFFERENT length (two fields on paths of equal length sharing a column, duplicates with another Go name via column:, and three or more fields per column are not generated: which field owns the column is not fixed by the statement); one of the two has either no permission at all (then the other one's rules apply unchanged: it is written where the statement says so, and the permission-less field's value never is) or is the deeper, promoted field shadowed by an outer field with some permission (Go's shadowing: the outer field owns the column, the inner one is always left zero); names and map keys address the owning field; duplicates carry no default and are never key, tracked-time or ignored fields",
-		"a permission-less duplicate on the shorter path declared BEFORE the embedded struct that holds the writable field: a predicted write of that column that does not happen is reported under its own signature permissionless-outer-duplicate-declared-first/column-not-written; such a column does not count as a column of an INSERT (every generated INSERT has at least one other column)",
+		"a permission-less duplicate on the shorter path is always declared AFTER the embedded struct that holds the writable field; declared before it, it is the first to claim the column and gorm keeps it (the writable field is ignored on every write path): which of two fields owns a column is not fixed by the statement, so that order is not generated",
 	},
 	Cases: func(tier string) int {
 		if tier == "thorough" {
